@@ -257,6 +257,10 @@ class _Marshaller:
         self._write(TYPE_UNICODE)
         if not PYTHON3 and self.python_version < (3, 0):
             s = x.encode("utf8")
+        elif PYTHON3:
+            # marshal stores text as UTF-8 (with lone surrogates passed through)
+            # and the length is the number of bytes, not of code points.
+            s = x.encode("utf-8", "surrogatepass")
         else:
             s = x
         self.w_long(len(s))
@@ -592,7 +596,7 @@ class _Unmarshaller:
     def load_unicode(self):
         n = self.r_long()
         s = self._read(n)
-        ret = s.decode("utf8")
+        ret = s.decode("utf8", "surrogatepass") if PYTHON3 else s.decode("utf8")
         return ret
 
     dispatch[TYPE_UNICODE] = load_unicode
@@ -919,7 +923,7 @@ class _FastUnmarshaller:
     def load_unicode(self):
         n = _r_long(self)
         s = _read(self, n)
-        ret = s.decode("utf8")
+        ret = s.decode("utf8", "surrogatepass") if PYTHON3 else s.decode("utf8")
         return ret
 
     dispatch[TYPE_UNICODE] = load_unicode
